@@ -363,8 +363,12 @@ theorem solve_eq_iter (k : Nat) (hk : k ≤ n)
     · simp [h]
     · simp [h]
 
-/-- the loop really exits because `break_fun` is false (the fuel is never what stops it) -/
-theorem solve_exits : cont pr n (solve pr n θ0 opt0 g0 vs0) = false := by
+/-- `solve` always returns the carry after some number `k ≤ n` of iterations: the first `k` at which
+    `break_fun` is false -/
+theorem solve_is_iter : ∃ k, k ≤ n ∧
+    (∀ j, j < k → cont pr n (iter pr j (init pr n θ0 opt0 g0 vs0)) = true) ∧
+    cont pr n (iter pr k (init pr n θ0 opt0 g0 vs0)) = false ∧
+    solve pr n θ0 opt0 g0 vs0 = iter pr k (init pr n θ0 opt0 g0 vs0) := by
   -- the first index at which the condition fails exists and is ≤ n
   have key : ∀ m, m ≤ n →
       (∀ j, j < m → cont pr n (iter pr j (init pr n θ0 opt0 g0 vs0)) = true) →
@@ -387,9 +391,17 @@ theorem solve_exits : cont pr n (solve pr n θ0 opt0 g0 vs0) = false := by
           · exact hall j (by omega))
       · exact ⟨m, hm, hall, by simpa using hc⟩
   obtain ⟨k, hk, hall, hend⟩ := key 0 (Nat.zero_le _) (fun j hj => absurd hj (Nat.not_lt_zero _))
-  unfold solve
-  rw [whileLoop_eq_iter pr n n k _ hk hall hend]
-  exact hend
+  exact ⟨k, hk, hall, hend, whileLoop_eq_iter pr n n k _ hk hall hend⟩
+
+/-- the loop really exits because `break_fun` is false (the fuel is never what stops it) -/
+theorem solve_exits : cont pr n (solve pr n θ0 opt0 g0 vs0) = false := by
+  obtain ⟨k, _, _, hend, hs⟩ := solve_is_iter pr n θ0 opt0 g0 vs0
+  rw [hs]; exact hend
+
+/-- at most `n` iterations run -/
+theorem solve_i_le : (solve pr n θ0 opt0 g0 vs0).i ≤ n := by
+  obtain ⟨k, hk, _, _, hs⟩ := solve_is_iter pr n θ0 opt0 g0 vs0
+  rw [hs, iter_init_i]; exact hk
 
 end
 
